@@ -379,6 +379,34 @@ where
                         }
                     }
                 }
+                // ---- C16 over whole runs (RRT / RRT-Connect never re-parent): a node's parent was the nearest of the
+                // older nodes to the sample, and the new node lies on a shortest path from it towards the sample, so
+                // (triangle inequality) no older node is closer to the new node than its parent is
+                if scn.real_metric && scn.params.kind != PlannerKind::Star && t.len() <= 400 {
+                    for (i, n) in t.iter().enumerate() {
+                        if let Some(pi) = n.1 {
+                            if pi >= i {
+                                continue;
+                            }
+                            let dp = sp.distance(&states[i], &states[pi]);
+                            if !dp.is_finite() {
+                                continue;
+                            }
+                            for j in 0..i {
+                                let dj = sp.distance(&states[i], &states[j]);
+                                if dj + 1e-6 * (1.0 + dp) + LERP_TOL < dp {
+                                    f.push(Finding {
+                                        property: "C16",
+                                        class: "parent_not_nearest".into(),
+                                        what: format!("{which}: node {i} hangs off node {pi} at distance {dp} although the older node {j} is at distance {dj}"),
+                                        call: ci,
+                                    });
+                                    break;
+                                }
+                            }
+                        }
+                    }
+                }
                 if scn.real_metric {
                     let acc = chk.accepted.borrow();
                     for (i, n) in t.iter().enumerate() {
